@@ -131,10 +131,11 @@ Theorem bridge_find_entry fuel fs sys n (w : W) :
   ghg_find_entry (E := E) fuel (fobj fs) (PInt sys) w = lift_pos fs (find_entry fs sys) w.
 Proof.
   intros Hi Hn. unfold ghg_find_entry, find_entry, get_int. rewrite Hn. cbn [bind].
-  match goal with |- context [s_for_list ?it ?seti ?body] => set (bd := body); set (si := seti) end.
-  unfold s_seq at 1 2. unfold s_assert. cbn [hg_find_entry__system py_le].
-  destruct ((0 <=? sys) && (sys <=? 7)) eqn:Hr; cbn [negb]; [|reflexivity].
-  unfold s_for_list. cbn [hg_find_entry__self]. rewrite getattr_f, Hn. cbn [fv]. rewrite range_items.
+  (* independent of the names and number of the method's locals and of what surrounds the loop *)
+  match goal with |- context [s_for_list ?it ?seti ?body] => remember body as bd eqn:Hbd; remember seti as si eqn:Hsi end.
+  py_unfold. cbn -[fobj items].
+  destruct ((0 <=? sys) && (sys <=? 7)) eqn:Hr; cbn -[fobj items]; [|reflexivity].
+  unfold s_for_list. cbn -[fobj items]. rewrite getattr_f, Hn. cbn [fv]. rewrite range_items.
   set (inv := fun l => hg_find_entry__self l = fobj fs /\ hg_find_entry__system l = PInt sys).
   assert (Hbody : forall l i (w : W), inv l ->
     match getf fs (fname "gnssId" i) with
@@ -143,21 +144,20 @@ Proof.
                        else exists l', bd (si l (PInt (Z.of_nat i))) w = CNormal l' w /\ inv l'
     | Some (VStr _) => True
     end).
-  { intros [a b c d e f] i w0 [Ha Hb]. cbn in Ha, Hb. subst a b. unfold bd, si, inv.
+  { intros l i w0 [Ha Hb]. destruct l. cbn in Ha, Hb. subst. unfold inv.
     destruct (getf fs (fname "gnssId" i)) as [[g|s]|] eqn:Hg; [| exact I |].
     - destruct (g =? sys) eqn:Hgs.
       + py_unfold. cbn -[fobj]. rewrite fstr_nat. change ("gnssId_" ++ dec i)%string with (fname "gnssId" i).
-        rewrite fld_item_f, Hg.
-        cbn -[fobj]. rewrite Hgs. reflexivity.
+        rewrite fld_item_f, Hg. cbn -[fobj]. rewrite Hgs. reflexivity.
       + py_unfold. cbn -[fobj]. rewrite fstr_nat. change ("gnssId_" ++ dec i)%string with (fname "gnssId" i).
-        rewrite fld_item_f, Hg.
-        cbn -[fobj]. rewrite Hgs. eexists. split; [reflexivity|]. split; reflexivity.
+        rewrite fld_item_f, Hg. cbn -[fobj]. rewrite Hgs. eexists. split; [reflexivity|]. split; reflexivity.
     - py_unfold. cbn -[fobj]. rewrite fstr_nat. change ("gnssId_" ++ dec i)%string with (fname "gnssId" i).
-      rewrite fld_item_f, Hg.
-      cbn -[fobj]. eexists. reflexivity. }
-  destruct (loop_find bd si inv fs sys Hi Hbody (Z.to_nat n) 0%nat (mkL_hg_find_entry (fobj fs) (PInt sys) PNone PNone PNone PNone) w
-              (conj eq_refl eq_refl)) as [[l' [H1 [[H2 _] H3]]] | [[j [H1 H3]] | [l' [e [H1 H3]]]]]; rewrite H1, H3; cbn.
-  - rewrite H2. reflexivity.
+      rewrite fld_item_f, Hg. cbn -[fobj]. eexists. reflexivity. }
+  match goal with |- context [s_for_items _ _ _ ?l0 _] =>
+    destruct (loop_find bd si inv fs sys Hi Hbody (Z.to_nat n) 0%nat l0 w (conj eq_refl eq_refl))
+      as [[l' [H1 [[H2 _] H3]]] | [[j [H1 H3]] | [l' [e [H1 H3]]]]]; rewrite H1, H3; cbn -[fobj]
+  end.
+  - rewrite ?H2. reflexivity.
   - reflexivity.
   - reflexivity.
 Qed.
